@@ -36,6 +36,7 @@ KIND_OF = {"ignore": "ignore", "cancel": "cancel", "abandon": "abandon"}
 DEFAULTS = {c: "cancel" for c in TABLE_CONDS}
 DEFAULTS["FILE_CHECKSUM_FAILURE"] = "ignore"
 
+MODS = ["eof_lost", "ackeof_lost", "fin_lost", "nak_lost", "dup_fd", "dup_eof", "dup_md", "dup_fin"]
 STIMULI = {
     # name: (owning side, condition, mode, needs closure)
     "src_ack_limit": ("S", "POSITIVE_ACK_LIMIT_REACHED", "ack", None),
@@ -58,12 +59,13 @@ STIMULI = {
 
 
 class StimPlan(Plan):
-    def __init__(self, stim, rng, md_lost=False):
+    def __init__(self, stim, rng, md_lost=False, mods=()):
         super().__init__()
         self.stim = set(stim)
         self.rng = rng
         self.flipped = False
         self.md_lost = md_lost
+        self.mods = set(mods)
 
     def on_emit(self, idx, item):
         d, raw, side = item["d"], item["raw"], item["side"]
@@ -74,6 +76,16 @@ class StimPlan(Plan):
             self.md_lost = False
             self.applied.append((idx, "drop", wire.short(d), side))
             return []
+        # schedule modifiers (acknowledged mode): the first copy of one PDU kind is lost, or every PDU of one kind arrives twice
+        for mod, kind in (("eof_lost", "EOF"), ("ackeof_lost", "ACK_EOF"), ("fin_lost", "FIN"), ("nak_lost", "NAK")):
+            if mod in self.mods and k == kind and not d["h"]["unack"]:
+                self.mods.discard(mod)
+                self.applied.append((idx, "drop", wire.short(d), side))
+                return []
+        for mod, kind in (("dup_fd", "FD"), ("dup_eof", "EOF"), ("dup_md", "MD"), ("dup_fin", "FIN")):
+            if mod in self.mods and k == kind and not (set(st) & {"size_error_eof", "size_error_fd", "size_error_fd_race", "checksum_ack", "checksum_unack"}):
+                self.applied.append((idx, "dup", wire.short(d), side))
+                return [("now", raw), ("now", raw)]
         if side == "D" and ("src_ack_limit" in st or "src_check_limit" in st):
             self.applied.append((idx, "drop", wire.short(d), side))
             return []
@@ -148,7 +160,8 @@ def gen_cases(tier, seed):
         cases.append({"t": "random", "stim": stim, "table_s": {c: rng.choice(["ignore", "cancel", "abandon"]) for c in TABLE_CONDS if rng.random() < 0.7},
                       "table_d": {c: rng.choice(["ignore", "cancel", "abandon"]) for c in TABLE_CONDS if rng.random() < 0.7},
                       "mode": rng.choice(["ack", "unack"]), "closure": rng.random() < 0.5, "imm": rng.random() < 0.5, "size": rng.choice([10, 10, 12, 17]),
-                      "seed": seed * 1_000_003 + i, "decouple": rng.choice(["S", "D", None]), "md_lost": rng.random() < 0.2})
+                      "seed": seed * 1_000_003 + i, "decouple": rng.choice(["S", "D", None]), "md_lost": rng.random() < 0.2,
+                      "mods": [m for m in MODS if rng.random() < 0.08]})
     # two consecutive transactions on the same handlers (fault state must not leak into the next transaction's fault handling)
     n2 = 600 if tier == "quick" else 20000
     for i in range(n2):
@@ -242,7 +255,9 @@ def run_case(case):
                 actions.setdefault(rng.choice([2, 3, 5]), []).append(("cancel", "S"))
             if "cancel_dst" in stim:
                 actions.setdefault(rng.choice([2, 3, 5]), []).append(("cancel", "D"))
-            plan = StimPlan(stim, rng, md_lost=bool(case.get("md_lost")))
+            plan = StimPlan(stim, rng, md_lost=bool(case.get("md_lost")), mods=case.get("mods") or ())
+            if case.get("mods"):
+                obs["runs_with_schedule_modifiers"] = 1
             w.log.add("phase", "-", pi=pi)
             if pi > 0 and case.get("table_d2") is not None:
                 # the user re-configures the fault handler table between the two transactions
